@@ -117,11 +117,21 @@ class _BlankLocals(ast.NodeTransformer):
 
 
 def _u(node, names) -> str:
+    """text of the node with the local names (and lambda parameters) blanked; the node is restored before returning."""
+    touched = []
     try:
         lam = {a.arg for x in ast.walk(node) if isinstance(x, ast.Lambda) for a in x.args.args}
-        return ast.unparse(_BlankLocals(names | lam if lam else names).visit(copy.deepcopy(node)))
+        blank = names | lam if lam else names
+        for x in ast.walk(node):
+            if isinstance(x, ast.Name) and x.id in blank:
+                touched.append((x, x.id))
+                x.id = "_"
+        return ast.unparse(node)
     except Exception:
         return ast.dump(node)
+    finally:
+        for x, old in touched:
+            x.id = old
 
 
 def fingerprints(fn) -> List[str]:
@@ -361,9 +371,10 @@ def candidates(fn, stored_attrs=frozenset()) -> List[Cand]:
     top = fn.body
 
     # ---- statement-level
+    loop_tails = _loop_tail_blocks(fn)
     for owner, field, stmts in blocks(fn):
-        in_loop = isinstance(owner, (ast.For, ast.AsyncFor, ast.While)) and field == "body"
-        at_fn_end = stmts is top
+        in_loop = id(stmts) in loop_tails
+        at_fn_end = _in_tail(fn, stmts) and not in_loop
         for i, st in enumerate(stmts):
             rest = stmts[i + 1:]
             # else-after-exit (in): `if c: ..exit` + rest -> else: rest
@@ -1149,7 +1160,11 @@ def _helper_instance(helper, call, caller_names: set, is_method: bool):
             if n not in defaults:
                 return None
             bound[n] = defaults[n]
-    body = copy.deepcopy(helper.body)
+    hcopy = copy.deepcopy(helper)
+    for _ in range(10):      # the helper's own temporaries first: a one-expression body can be inlined anywhere
+        if not inline_fresh(hcopy, set(), {x.attr for x in own_walk(hcopy) if isinstance(x, ast.Attribute) and isinstance(x.ctx, (ast.Store, ast.Del))}):
+            break
+    body = hcopy.body
     if body and isinstance(body[0], ast.Expr) and isinstance(body[0].value, ast.Constant) and isinstance(body[0].value.value, str):
         body = body[1:]
     holder = ast.Module(body=body, type_ignores=[])
@@ -1215,12 +1230,19 @@ def inline_helpers(tree: ast.Module, known_paths: set, functions) -> int:
             helpers[("fn", fn.name)] = fn
         elif len(parts) == 2 and "#" not in parts[0]:
             helpers[("meth", parts[0], fn.name)] = fn
+    for q, fn in functions:
+        if q in known_paths or "." not in q:
+            continue
+        parent = q.rsplit(".", 1)[0]
+        if "#" in parent.rsplit(".", 1)[-1] and parent in known_paths:
+            helpers[("nested", parent, fn.name)] = fn
     if not helpers:
         return 0
     for q, caller in functions:
         if q not in known_paths:
             continue
         cls = q.split(".")[0] if "." in q and "#" not in q.split(".")[0] else None
+        scope_parents = {q} | {q.rsplit(".", k)[0] for k in range(1, q.count(".") + 1)}
         for _ in range(6):
             changed = False
             caller_names = {x.id for x in ast.walk(caller) if isinstance(x, ast.Name)} | params_of(caller)
@@ -1237,6 +1259,8 @@ def inline_helpers(tree: ast.Module, known_paths: set, functions) -> int:
                             h, is_m = helpers[("fn", c.func.id)], False
                         elif isinstance(c, ast.Call) and isinstance(c.func, ast.Attribute) and isinstance(c.func.value, ast.Name) and c.func.value.id == "self" and cls and ("meth", cls, c.func.attr) in helpers:
                             h, is_m = helpers[("meth", cls, c.func.attr)], True
+                        elif isinstance(c, ast.Call) and isinstance(c.func, ast.Name) and any(("nested", p_, c.func.id) in helpers for p_ in scope_parents):
+                            h, is_m = next(helpers[("nested", p_, c.func.id)] for p_ in scope_parents if ("nested", p_, c.func.id) in helpers), False
                         elif isinstance(c, ast.Name) and isinstance(c.ctx, ast.Load) and ("fn", c.id) in helpers and not _is_call_func(head, c):
                             # a reference to a one-expression helper: a lambda
                             hh = helpers[("fn", c.id)]
@@ -1256,6 +1280,9 @@ def inline_helpers(tree: ast.Module, known_paths: set, functions) -> int:
                             continue
                         prologue, body = inst
                         body = _tailify(body)
+                        as_expr = _returns_to_ifexp(body)
+                        if as_expr is not None and not prologue:
+                            body = [L(ast.Return(value=as_expr), c)]
                         new = None
                         if len(body) == 1 and isinstance(body[0], ast.Return) and body[0].value is not None and not prologue:
                             new = [_replace_expr(st, c, body[0].value)]
@@ -1290,6 +1317,17 @@ def inline_helpers(tree: ast.Module, known_paths: set, functions) -> int:
             if not changed:
                 break
     return n_inlined
+
+
+def _returns_to_ifexp(stmts):
+    """an if / else tree whose leaves are `return E` as one conditional expression (None when the body has another shape)."""
+    if len(stmts) == 1 and isinstance(stmts[0], ast.Return) and stmts[0].value is not None:
+        return stmts[0].value
+    if len(stmts) == 1 and isinstance(stmts[0], ast.If) and stmts[0].orelse:
+        a, b = _returns_to_ifexp(stmts[0].body), _returns_to_ifexp(stmts[0].orelse)
+        if a is not None and b is not None:
+            return L(ast.IfExp(test=stmts[0].test, body=a, orelse=b), stmts[0])
+    return None
 
 
 def _is_call_func(root, name_node) -> bool:
@@ -1450,7 +1488,9 @@ def direct_function(fn, ref_fps: List[str], known_names: set, stored_attrs, norm
     """best-first search over the semantics-preserving rewrites: a state is accepted when it is strictly closer to the reference;
     states at the same distance (plateau) are explored up to the budget, because some spellings are two or three rewrites apart."""
     import heapq
+    import types
     debug = os.environ.get("CANON_DEBUG")
+    ref_counter = Counter(ref_fps)
 
     def key(f):
         return tuple(fingerprints(f))
@@ -1478,25 +1518,33 @@ def direct_function(fn, ref_fps: List[str], known_names: set, stored_attrs, norm
         if dist_ > best_d + 2:
             continue
         hot = _unmatched_stmt_ids(state, ref_fps)
-        n = len(candidates_all(state, stored_attrs, ref_fps))
-        for k in range(n):
-            t = copy.deepcopy(state)
-            cs = candidates_all(t, stored_attrs, ref_fps)
-            if k >= len(cs):
-                break
-            kind, apply, anchor = cs[k]
-            if anchor is not None and not _near(t, anchor, _unmatched_stmt_ids(t, ref_fps)):
-                continue
+        near = _near_index(state, hot)
+        cs_state = candidates_all(state, stored_attrs, ref_fps)
+        todo = [k for k, (_, _, anchor) in enumerate(cs_state) if anchor is None or near(anchor)]
+        for k in todo:
+            kind, f0, anchor = cs_state[k]
+            memo: dict = {}
+            t = copy.deepcopy(state, memo)
+            if f0.__closure__ is None:
+                # the rewrite is bound to the nodes of `state` through its default arguments: rebind them to the copy
+                apply = types.FunctionType(f0.__code__, f0.__globals__, f0.__name__, tuple(copy.deepcopy(v, memo) for v in (f0.__defaults__ or ())), None)
+            else:
+                cs = candidates_all(t, stored_attrs, ref_fps)
+                if k >= len(cs) or cs[k][0] != kind:
+                    continue
+                apply = cs[k][1]
             try:
                 apply()
                 settle(t)
-                nd = distance(t, ref_fps)
+                fps_t = fingerprints(t)
+                a_, b_ = Counter(fps_t), ref_counter
+                nd = sum(((a_ - b_) + (b_ - a_)).values())
             except Exception as ex:       # a rewrite that cannot be applied here
                 if debug:
                     print("canon_rw:", kind, "failed:", repr(ex))
                 continue
             evals += 1
-            kk = key(t)
+            kk = tuple(fps_t)
             if kk in seen:
                 continue
             seen.add(kk)
@@ -1517,22 +1565,29 @@ def direct_function(fn, ref_fps: List[str], known_names: set, stored_attrs, norm
     return best_d
 
 
-def _near(fn, anchor, hot) -> bool:
-    """the rewrite touches a statement that differs from the reference (or its neighbour)."""
-    if not hot:
-        return False
-    if id(anchor) in hot:
-        return True
+def _near_index(fn, hot):
+    """predicate: the node belongs to (or is next to, or contains) a statement that differs from the reference."""
+    stmt_of, hot_zone = {}, set()
     for owner, field, stmts in blocks(fn):
         for i, st in enumerate(stmts):
-            if st is anchor or (not isinstance(st, SCOPE) and any(x is anchor for x in _walk_no_scope(st))):
-                around = stmts[max(0, i - 1):i + 3]
-                if any(id(x) in hot for x in around) or id(owner) in hot:
-                    return True
-                inner = [x for a in [st] for x in _walk_no_scope(a)] if not isinstance(st, SCOPE) else []
-                if any(id(x) in hot for x in inner):
-                    return True
-    return False
+            inner = list(_walk_no_scope(st)) if not isinstance(st, SCOPE) else [st]
+            for x in inner:
+                stmt_of.setdefault(id(x), st) if False else None
+            zone_hot = id(owner) in hot or any(id(x) in hot for x in stmts[max(0, i - 1):i + 3]) or any(id(x) in hot for x in inner)
+            if zone_hot:
+                hot_zone.add(id(st))
+            for x in inner:
+                # innermost statement wins: blocks() lists outer blocks first, so later assignments overwrite
+                stmt_of[id(x)] = st
+    # a node inside a nested statement is also inside the outer ones: propagate the zone outwards
+    def near(anchor) -> bool:
+        if not hot:
+            return False
+        if id(anchor) in hot:
+            return True
+        st = stmt_of.get(id(anchor))
+        return st is not None and id(st) in hot_zone
+    return near
 
 
 def candidates_all(fn, stored_attrs, ref_fps):
@@ -1928,6 +1983,22 @@ def _strip_ctx(node):
     return node
 
 
+def _loop_tail_blocks(fn) -> set:
+    """ids of the statement lists in tail position of a loop body (`continue` there is the same as falling off the block)."""
+    out = set()
+
+    def tails(block):
+        out.add(id(block))
+        if block and isinstance(block[-1], ast.If):
+            tails(block[-1].body)
+            if block[-1].orelse:
+                tails(block[-1].orelse)
+    for n in own_walk(fn):
+        if isinstance(n, (ast.For, ast.AsyncFor, ast.While)):
+            tails(n.body)
+    return out
+
+
 def _in_tail(fn, stmts) -> bool:
     """stmts is a block in tail position of the function (falling off its end ends the function)."""
     def rec(block):
@@ -2040,12 +2111,20 @@ def eval_seq(node):
         yield node
 
 
+def _pure_ctor_call(x) -> bool:
+    """a call of a class of the package whose construction only stores its arguments (table of the reference tree)."""
+    return isinstance(x, ast.Call) and isinstance(x.func, ast.Name) and x.func.id in shapes().get("<global>", {}).get("pure_ctors", ()) \
+        and all(pure(a) or _pure_ctor_call(a) for a in x.args) and all(pure(k.value) for k in x.keywords)
+
+
 def _evaluated_first(head, sub) -> bool:
     """nothing with an effect is evaluated in head before sub."""
     inside = {id(x) for x in ast.walk(sub)}
     for x in eval_seq(head):
         if id(x) in inside:
             return True
+        if _pure_ctor_call(x):
+            continue
         if isinstance(x, (ast.Call, ast.Await, ast.Yield, ast.YieldFrom, ast.NamedExpr)) and not pure(x):
             return False
         if isinstance(x, ast.Subscript) and isinstance(x.ctx, ast.Load) and not pure(x):
